@@ -50,7 +50,7 @@ Variable St : Type.
 Variable recv : St -> bytes -> St * list delivery * outc.
 Variable bufof : St -> bytes.
 Variable Inv : St -> Prop.
-Variable dl : F -> delivery.
+Variable dls : F -> list delivery.   (* what a frame contributes: its message, or nothing (unit not served) *)
 Variable good : F -> Prop.
 Variable okk : nat -> Prop.          (* allowed lengths of a non-empty buffered partial frame *)
 
@@ -58,7 +58,7 @@ Hypothesis batch : forall s c fs p rest,
   Inv s -> Forall good fs -> Forall good rest ->
   bufof s ++ c = stream fs ++ p -> partial p rest -> (p <> [] -> okk (length p)) ->
   (bufof s <> [] -> okk (length (bufof s))) ->
-  exists s', recv s c = (s', map dl fs, Done) /\ bufof s' = p /\ Inv s'.
+  exists s', recv s c = (s', flat_map dls fs, Done) /\ bufof s' = p /\ Inv s'.
 
 Lemma feed_snoc s cs c :
   feed recv s (cs ++ [c]) =
@@ -77,13 +77,13 @@ Theorem feed_stream : forall frames chunks s0,
   Inv s0 -> bufof s0 = [] -> Forall good frames ->
   concat chunks = stream frames ->
   (forall cs1 cs2 k, chunks = cs1 ++ cs2 -> cut_inside (map adu frames) (length (concat cs1)) k -> okk k) ->
-  exists s', feed recv s0 chunks = (s', map dl frames, true).
+  exists s', feed recv s0 chunks = (s', flat_map dls frames, true).
 Proof.
   intros frames chunks s0 Hinv0 Hb0 Hgood Hcat Hcuts.
   (* stronger statement on every prefix of the chunk list, by snoc induction *)
   assert (G : forall cs1 cs2, chunks = cs1 ++ cs2 ->
             exists fs1 fs2 p s, frames = fs1 ++ fs2 /\ concat cs1 = stream fs1 ++ p /\ partial p fs2 /\
-              feed recv s0 cs1 = (s, map dl fs1, true) /\ bufof s = p /\ Inv s /\ (p <> [] -> okk (length p))).
+              feed recv s0 cs1 = (s, flat_map dls fs1, true) /\ bufof s = p /\ Inv s /\ (p <> [] -> okk (length p))).
   { induction cs1 as [|c cs1 IH] using rev_ind; intros cs2 Hsplit.
     - exists [], frames, [], s0. cbn. repeat split; try assumption; try (now left). intros H; now elim H.
     - rewrite <- app_assoc in Hsplit. cbn in Hsplit.
@@ -119,7 +119,7 @@ Proof.
       + rewrite Hfr, Hg, app_assoc. reflexivity.
       + rewrite concat_app. cbn [concat]. rewrite app_nil_r, Hc1, stream_app, <- !app_assoc.
         f_equal. exact Hpc.
-      + rewrite feed_snoc, Hfeed, Hrecv, map_app. reflexivity. }
+      + rewrite feed_snoc, Hfeed, Hrecv, flat_map_app. reflexivity. }
   destruct (G chunks [] (eq_sym (app_nil_r chunks))) as (fs1 & fs2 & p & s & Hfr & Hc & Hpart & Hfeed & Hbuf & _ & _).
   (* the whole stream has been given: nothing is left *)
   assert (Hnil : p ++ [] = stream fs2).
